@@ -2,6 +2,7 @@ package world
 
 import (
 	"context"
+	"fmt"
 	"strconv"
 	"strings"
 	"time"
@@ -173,159 +174,169 @@ func (w *World) exec(cs *clientState, idx int, op Op) *Rec {
 		w.doneRecs++
 		s.Note("ret c%d i%d %s ok=%v hdr=%d err=%q", cs.id, idx, op.K, r.OK, r.Hdr, clip(r.Err))
 	}
-	switch op.K {
-	case "create":
-		resp, err := b.Create(ctx, &proto.CreateRequest{Key: Bytes(op.Key), Value: Bytes(op.Val)})
-		if err != nil {
-			r.Err = err.Error()
-		} else {
-			r.OK, r.Hdr = resp.Succeeded, resp.Header.GetRevision()
-			cs.seeHdr(r.Hdr)
-			if r.OK {
-				cs.learn(op.Key, r.Hdr)
+	func() {
+		// a panic of node code on the request goroutine is recorded as the request's outcome; the
+		// oracles still judge everything that happened before (C20 reports the panic itself)
+		defer func() {
+			if p := recover(); p != nil {
+				r.Err = fmt.Sprintf("panic: %v", p)
+				w.Panics = append(w.Panics, fmt.Sprintf("%s %s: %v", op.K, op.Key, p))
 			}
-		}
-	case "update":
-		resp, err := b.Update(ctx, &proto.UpdateRequest{Kv: &proto.KeyValue{Key: Bytes(op.Key), Value: Bytes(op.Val), Revision: r.RevAbs}})
-		if err != nil {
-			r.Err = err.Error()
-		} else {
-			r.OK, r.Hdr, r.KV = resp.Succeeded, resp.Header.GetRevision(), kvOf(resp.Kv)
-			cs.seeHdr(r.Hdr)
-			if r.OK {
-				cs.learn(op.Key, r.Hdr)
-			} else if r.KV != nil {
-				cs.learn(op.Key, r.KV.Rev)
-			}
-		}
-	case "delete":
-		resp, err := b.Delete(ctx, &proto.DeleteRequest{Key: Bytes(op.Key), Revision: r.RevAbs})
-		if err != nil {
-			r.Err = err.Error()
-		} else {
-			r.OK, r.Hdr, r.KV = resp.Succeeded, resp.Header.GetRevision(), kvOf(resp.Kv)
-			cs.seeHdr(r.Hdr)
-			if r.OK {
-				cs.tomb[op.Key] = r.Hdr
-				if r.Hdr > cs.maxSeen {
-					cs.maxSeen = r.Hdr
-				}
-			} else if r.KV != nil {
-				cs.learn(op.Key, r.KV.Rev)
-			}
-		}
-	case "get":
-		resp, err := b.Get(ctx, &proto.GetRequest{Key: Bytes(op.Key), Revision: r.RevAbs})
-		if err != nil {
-			r.Err = err.Error()
-		} else {
-			r.OK, r.Hdr, r.KV = true, resp.Header.GetRevision(), kvOf(resp.Kv)
-			cs.seeHdr(r.Hdr)
-			if r.KV != nil && r.RevAbs == 0 {
-				cs.learn(op.Key, r.KV.Rev)
-			}
-		}
-	case "list":
-		resp, err := b.List(ctx, &proto.RangeRequest{Key: Bytes(op.Key), End: Bytes(op.End), Revision: r.RevAbs, Limit: op.Limit})
-		if err != nil {
-			r.Err = err.Error()
-		} else {
-			r.OK, r.Hdr, r.More = true, resp.Header.GetRevision(), resp.More
-			cs.seeHdr(r.Hdr)
-			for _, kv := range resp.Kvs {
-				r.KVs = append(r.KVs, *kvOf(kv))
-				if r.RevAbs == 0 {
-					cs.learn(string(kv.Key), kv.Revision)
+		}()
+		switch op.K {
+		case "create":
+			resp, err := b.Create(ctx, &proto.CreateRequest{Key: Bytes(op.Key), Value: Bytes(op.Val)})
+			if err != nil {
+				r.Err = err.Error()
+			} else {
+				r.OK, r.Hdr = resp.Succeeded, resp.Header.GetRevision()
+				cs.seeHdr(r.Hdr)
+				if r.OK {
+					cs.learn(op.Key, r.Hdr)
 				}
 			}
-		}
-	case "count":
-		resp, err := b.Count(ctx, &proto.CountRequest{Key: Bytes(op.Key), End: Bytes(op.End)})
-		if err != nil {
-			r.Err = err.Error()
-		} else {
-			r.OK, r.Hdr, r.Count = true, resp.Header.GetRevision(), resp.Count
-			cs.seeHdr(r.Hdr)
-		}
-	case "compact":
-		resp, err := b.Compact(ctx, r.RevAbs)
-		if resp != nil {
-			r.Hdr = resp.Header.GetRevision()
-		}
-		if err != nil {
-			r.Err = err.Error()
-		} else {
-			r.OK = true
-		}
-	case "parts":
-		resp, err := b.GetPartitions(ctx, &proto.ListPartitionRequest{Key: []byte(op.Key), End: []byte(op.End)})
-		if err != nil {
-			r.Err = err.Error()
-		} else {
-			r.OK, r.Hdr = true, resp.Header.GetRevision()
-			for _, k := range resp.PartitionKeys {
-				r.PartKeys = append(r.PartKeys, string(k))
+		case "update":
+			resp, err := b.Update(ctx, &proto.UpdateRequest{Kv: &proto.KeyValue{Key: Bytes(op.Key), Value: Bytes(op.Val), Revision: r.RevAbs}})
+			if err != nil {
+				r.Err = err.Error()
+			} else {
+				r.OK, r.Hdr, r.KV = resp.Succeeded, resp.Header.GetRevision(), kvOf(resp.Kv)
+				cs.seeHdr(r.Hdr)
+				if r.OK {
+					cs.learn(op.Key, r.Hdr)
+				} else if r.KV != nil {
+					cs.learn(op.Key, r.KV.Rev)
+				}
 			}
-		}
-	case "stream":
-		// op.Key / op.End are raw keys unless op.API == "internal" (then hex of internal keys)
-		var sk, ek []byte
-		if op.API == "internal" {
-			sk, ek = unhex(op.Key), unhex(op.End)
-		} else {
-			sk, ek = simkv.EncodeKey([]byte(op.Key), 0), simkv.EncodeKey([]byte(op.End), 0)
-		}
-		ch, err := b.ListByStream(ctx, sk, ek, r.RevAbs)
-		if err != nil {
-			r.Err = err.Error()
-			break
-		}
-		r.OK = true
-		r.Batches = w.readStream(ch)
-	case "streamparts":
-		// what a client of the streaming API does: ask for the partitions, then stream each one
-		resp, err := b.GetPartitions(ctx, &proto.ListPartitionRequest{Key: Bytes(op.Key), End: Bytes(op.End)})
-		if err != nil {
-			r.Err = err.Error()
-			break
-		}
-		r.OK, r.Hdr = true, resp.Header.GetRevision()
-		rev := r.RevAbs
-		if rev == 0 {
-			rev = r.Hdr
-			r.RevAbs = rev
-		}
-		for _, k := range resp.PartitionKeys {
-			r.PartKeys = append(r.PartKeys, string(k))
-		}
-		for i := 0; i+1 < len(resp.PartitionKeys); i++ {
-			ch, err := b.ListByStream(ctx, resp.PartitionKeys[i], resp.PartitionKeys[i+1], rev)
+		case "delete":
+			resp, err := b.Delete(ctx, &proto.DeleteRequest{Key: Bytes(op.Key), Revision: r.RevAbs})
+			if err != nil {
+				r.Err = err.Error()
+			} else {
+				r.OK, r.Hdr, r.KV = resp.Succeeded, resp.Header.GetRevision(), kvOf(resp.Kv)
+				cs.seeHdr(r.Hdr)
+				if r.OK {
+					cs.tomb[op.Key] = r.Hdr
+					if r.Hdr > cs.maxSeen {
+						cs.maxSeen = r.Hdr
+					}
+				} else if r.KV != nil {
+					cs.learn(op.Key, r.KV.Rev)
+				}
+			}
+		case "get":
+			resp, err := b.Get(ctx, &proto.GetRequest{Key: Bytes(op.Key), Revision: r.RevAbs})
+			if err != nil {
+				r.Err = err.Error()
+			} else {
+				r.OK, r.Hdr, r.KV = true, resp.Header.GetRevision(), kvOf(resp.Kv)
+				cs.seeHdr(r.Hdr)
+				if r.KV != nil && r.RevAbs == 0 {
+					cs.learn(op.Key, r.KV.Rev)
+				}
+			}
+		case "list":
+			resp, err := b.List(ctx, &proto.RangeRequest{Key: Bytes(op.Key), End: Bytes(op.End), Revision: r.RevAbs, Limit: op.Limit})
+			if err != nil {
+				r.Err = err.Error()
+			} else {
+				r.OK, r.Hdr, r.More = true, resp.Header.GetRevision(), resp.More
+				cs.seeHdr(r.Hdr)
+				for _, kv := range resp.Kvs {
+					r.KVs = append(r.KVs, *kvOf(kv))
+					if r.RevAbs == 0 {
+						cs.learn(string(kv.Key), kv.Revision)
+					}
+				}
+			}
+		case "count":
+			resp, err := b.Count(ctx, &proto.CountRequest{Key: Bytes(op.Key), End: Bytes(op.End)})
+			if err != nil {
+				r.Err = err.Error()
+			} else {
+				r.OK, r.Hdr, r.Count = true, resp.Header.GetRevision(), resp.Count
+				cs.seeHdr(r.Hdr)
+			}
+		case "compact":
+			resp, err := b.Compact(ctx, r.RevAbs)
+			if resp != nil {
+				r.Hdr = resp.Header.GetRevision()
+			}
+			if err != nil {
+				r.Err = err.Error()
+			} else {
+				r.OK = true
+			}
+		case "parts":
+			resp, err := b.GetPartitions(ctx, &proto.ListPartitionRequest{Key: []byte(op.Key), End: []byte(op.End)})
+			if err != nil {
+				r.Err = err.Error()
+			} else {
+				r.OK, r.Hdr = true, resp.Header.GetRevision()
+				for _, k := range resp.PartitionKeys {
+					r.PartKeys = append(r.PartKeys, string(k))
+				}
+			}
+		case "stream":
+			// op.Key / op.End are raw keys unless op.API == "internal" (then hex of internal keys)
+			var sk, ek []byte
+			if op.API == "internal" {
+				sk, ek = unhex(op.Key), unhex(op.End)
+			} else {
+				sk, ek = simkv.EncodeKey([]byte(op.Key), 0), simkv.EncodeKey([]byte(op.End), 0)
+			}
+			ch, err := b.ListByStream(ctx, sk, ek, r.RevAbs)
 			if err != nil {
 				r.Err = err.Error()
 				break
 			}
-			r.Streams = append(r.Streams, w.readStream(ch))
-		}
-	case "watch":
-		wctx, cancel := context.WithCancel(ctx)
-		wa := &Watcher{ID: op.W, Client: cs.id, Node: op.Node, Prefix: op.Key, Start: r.RevAbs, Cancel: cancel, Consume: op.Consume}
-		wa.RegInv = r.Inv
-		wa.ComAtInv = r.ComInv
-		ch, err := b.Watch(wctx, op.Key, r.RevAbs)
-		wa.RegRet = s.StepNo()
-		wa.ComAtRet = b.GetCurrentRevision()
-		if err != nil {
-			r.Err = err.Error()
-			wa.Refused = err.Error()
-			cancel()
-			wa.Cancel = nil
-		} else {
 			r.OK = true
-			wa.Ch = ch
-			w.startConsumer(wa)
+			r.Batches = w.readStream(ch)
+		case "streamparts":
+			// what a client of the streaming API does: ask for the partitions, then stream each one
+			resp, err := b.GetPartitions(ctx, &proto.ListPartitionRequest{Key: Bytes(op.Key), End: Bytes(op.End)})
+			if err != nil {
+				r.Err = err.Error()
+				break
+			}
+			r.OK, r.Hdr = true, resp.Header.GetRevision()
+			rev := r.RevAbs
+			if rev == 0 {
+				rev = r.Hdr
+				r.RevAbs = rev
+			}
+			for _, k := range resp.PartitionKeys {
+				r.PartKeys = append(r.PartKeys, string(k))
+			}
+			for i := 0; i+1 < len(resp.PartitionKeys); i++ {
+				ch, err := b.ListByStream(ctx, resp.PartitionKeys[i], resp.PartitionKeys[i+1], rev)
+				if err != nil {
+					r.Err = err.Error()
+					break
+				}
+				r.Streams = append(r.Streams, w.readStream(ch))
+			}
+		case "watch":
+			wctx, cancel := context.WithCancel(ctx)
+			wa := &Watcher{ID: op.W, Client: cs.id, Node: op.Node, Prefix: op.Key, Start: r.RevAbs, Cancel: cancel, Consume: op.Consume}
+			wa.RegInv = r.Inv
+			wa.ComAtInv = r.ComInv
+			ch, err := b.Watch(wctx, op.Key, r.RevAbs)
+			wa.RegRet = s.StepNo()
+			wa.ComAtRet = b.GetCurrentRevision()
+			if err != nil {
+				r.Err = err.Error()
+				wa.Refused = err.Error()
+				cancel()
+				wa.Cancel = nil
+			} else {
+				r.OK = true
+				wa.Ch = ch
+				w.startConsumer(wa)
+			}
+			w.Watchers = append(w.Watchers, wa)
 		}
-		w.Watchers = append(w.Watchers, wa)
-	}
+	}()
 	finish()
 	return r
 }
